@@ -76,6 +76,7 @@ func (p pred) fn() func(col, row string, val int64) bool {
 type accCfg struct {
 	Groups [][][]int `json:"groups"` // [name, template]
 	Cols   [][][]int `json:"cols"`   // [name, initial, template]
+	Sort   [][]int   `json:"sort"`   // none, or one template: the --sort expression (evaluated by Groups())
 }
 
 // subject wraps one real aggregator (two for the numerical one: ascending / reversed analysis).
@@ -111,6 +112,11 @@ func newSubject(kind string, cfg *accCfg) (*subject, error) {
 		for _, c := range cfg.Cols {
 			if err := s.acc.AddDataExpr(str(c[0]), str(c[2]), str(c[1])); err != nil {
 				return nil, fmt.Errorf("column %q: %v", str(c[2]), err)
+			}
+		}
+		for _, e := range cfg.Sort {
+			if err := s.acc.SetSort(str(e)); err != nil {
+				return nil, fmt.Errorf("sort %q: %v", str(e), err)
 			}
 		}
 	default:
@@ -310,14 +316,19 @@ func (s *subject) observe() (o M, panicked string) {
 	case "acc":
 		groups := s.acc.Groups(sorting.ByName)
 		data := make([][]interface{}, 0, len(groups))
+		nocopy := make([][]interface{}, 0, len(groups))
 		for _, g := range groups {
-			row := make([][]int, 0)
+			row, row2 := make([][]int, 0), make([][]int, 0)
 			for _, c := range s.acc.Data(g) {
 				row = append(row, BS(c))
 			}
+			for _, c := range s.acc.DataNoCopy(g) {
+				row2 = append(row2, BS(c))
+			}
 			data = append(data, []interface{}{BS(string(g)), row})
+			nocopy = append(nocopy, []interface{}{BS(string(g)), row2})
 		}
-		o["data"], o["ngroups"] = data, s.acc.DataCount()
+		o["data"], o["nocopy"], o["ngroups"] = data, nocopy, s.acc.DataCount()
 	}
 	return o, ""
 }
@@ -514,6 +525,7 @@ func compare(agg string, got M, exp map[string]json.RawMessage) [][3]interface{}
 		}
 	case "acc":
 		eq("data", sortSet(g["data"]), sortSet(e["data"]))
+		eq("nocopy", sortSet(g["nocopy"]), sortSet(e["data"]))
 		eq("ngroups", g["ngroups"], float64(len(e["data"].([]interface{}))))
 	}
 	return diffs
@@ -628,6 +640,7 @@ func replayVector(idx int, raw []byte, rs *replayState) error {
 		cfg = &accCfg{}
 		json.Unmarshal(v.Cfg["groups"], &cfg.Groups)
 		json.Unmarshal(v.Cfg["cols"], &cfg.Cols)
+		json.Unmarshal(v.Cfg["sort"], &cfg.Sort)
 	}
 	base3, err := base3Of(str(v.Base))
 	if err != nil {
@@ -832,7 +845,9 @@ func c07Trace(args []string) error {
 		plan{"tbl", 0, 1000 * sc, 20, 15}, plan{"tbl", 0, 500 * sc, 5, 30}, plan{"tbl", 1, 600 * sc, 12, 12},
 		plan{"num", 0, 2500 * sc, 400, 0}, plan{"num", 1, 1200 * sc, 12, 0}, plan{"num", 2, 301 * sc, 60, 0}, plan{"num", 3, 64 * sc, 1000, 0},
 		plan{"num", 4, 300 * sc, 40, 0}, plan{"num", 5, 150 * sc, 500, 0}, plan{"num", 6, 40 * sc, 4, 0}, plan{"num", 4, 7, 3, 0},
-		plan{"acc", 1, 400 * sc, 6, 0}, plan{"acc", 2, 400 * sc, 5, 4}, plan{"acc", 3, 300 * sc, 3, 0})
+		plan{"acc", 1, 400 * sc, 6, 0}, plan{"acc", 2, 400 * sc, 5, 4}, plan{"acc", 3, 300 * sc, 3, 0},
+		// the shared evaluation context under test (group expressions naming columns, {.}, unknown keys)
+		plan{"acc", 4, 400 * sc, 5, 0}, plan{"acc", 5, 300 * sc, 4, 4}, plan{"acc", 6, 200 * sc, 3, 0})
 	for pi, pl := range plans {
 		r := vh.NewRand(int64(7000 + pi))
 		tid++
